@@ -297,18 +297,56 @@ def c08_1(ctx: Ctx) -> RuleResult:
 
 
 # --------------------------------------------------------------------- C08.2
+def _block_kind(ctx: Ctx, f: Func, t: Term, depth: int = 0) -> str | None:
+    """'NL' when a block is made of the non-linear constraint values / bounds / Jacobians
+    (configuration field `nonlinear_constraints`, or the evaluator results obtained through the
+    plug-in's cached-evaluation accessor), 'LIN' when it is made of the linear constraints
+    (configuration field `linear_constraints`, or a parameter that receives them)."""
+    A = anchors(ctx)
+    t = ctx.X.force_inline(t, f)
+    names = {s_[2] for s_ in ctx.X.closure(t) if s_[0] == "attr"}
+    if "nonlinear_constraints" in names:
+        return "NL"
+    if "linear_constraints" in names:
+        return "LIN"
+    # values computed by the evaluator callback (through methods of the plug-in)
+    for s_ in ctx.X.closure(t):
+        if s_[0] == "call":
+            for g in ctx.cg.resolve_fn(s_[1], f):
+                if g.cls is A.cls and A.validator in ctx.cg.reachable([g], include_nested_values=False) or g.cls is A.cls and _reads_cache(ctx, g):
+                    return "NL"
+                if g.cls is None and g.module.name.startswith("ropt.plugins.optimizer") and any(
+                    x[0] == "attr" and x[2] == "linear_constraints" for x in ctx.X.closure(ctx.X.return_term(g))):
+                    return "LIN"
+    if depth < 2:
+        kinds = set()
+        for s_ in subterms(t):
+            if s_[0] == "param" and s_[1] == f.qualname and f.positional and s_[2] != f.positional[0]:
+                for v in ctx.cg.param_values(f, s_[2]):
+                    if v is not None and v != ("const", None):
+                        owner = ctx.repo.funcs.get(next((x[1] for x in subterms(v) if x[0] == "param"), ""), f)
+                        k = _block_kind(ctx, owner, v, depth + 1)
+                        if k:
+                            kinds.add(k)
+        if len(kinds) == 1:
+            return kinds.pop()
+    return None
+
+
+def _reads_cache(ctx: Ctx, g: Func) -> bool:
+    A = anchors(ctx)
+    return any(s_[0] == "attr" and s_[2] in A.cache_fields for s_ in ctx.X.closure(ctx.X.return_term(g)))
+
+
 def _block_order(ctx: Ctx, f: Func, listname: str) -> list[str] | None:
     """Order of 'NL' / 'LIN' blocks appended to a local list."""
     order = []
     for n in sorted(nodes_in(f, ast.Call), key=lambda n: (n.lineno, n.col_offset)):
         if isinstance(n.func, ast.Attribute) and n.func.attr == "append" and isinstance(n.func.value, ast.Name) and n.func.value.id == listname and n.args:
-            t = ctx.X.at(f, n.args[0])
-            txt = show(t, 400)
-            is_nl = "nonlinear" in txt or "_constraint_functions" in txt or "_constraint_gradients" in txt
-            is_lin = not is_nl and "lin" in txt.lower()
-            if not (is_lin or is_nl):
+            k = _block_kind(ctx, f, ctx.X.at(f, n.args[0]))
+            if k is None:
                 return None
-            order.append("LIN" if is_lin else "NL")
+            order.append(k)
     return order
 
 
